@@ -101,8 +101,8 @@ std::string snapPrefix(const Snap& b, const Snap& a, std::vector<int>& newCols)
 // ---------------------------------------------------------------- calculators
 const char* CALCS[] = {"kriging", "xvalid", "test_neigh", "simtub", "simtub_nc", "simfft", "migrate", "migrateMulti", "migrateByLocator",
                        "statsOnGrid", "invdist", "nearest", "movave", "movmed", "lstsqr", "regression", "kribayes", "krigcell", "simbayes",
-                       "g2gcopy", "g2gexpand", "g2gshrink", "morpho"};
-const int NCALCS = 23;
+                       "g2gcopy", "g2gexpand", "g2gshrink", "morpho", "smooth", "krimage"};
+const int NCALCS = 25;
 
 struct Call
 {
@@ -162,12 +162,12 @@ bool needsNeigh(const std::string& c)
 bool needsModel(const std::string& c)
 {
   return c == "kriging" || c == "xvalid" || c == "test_neigh" || c == "simtub" || c == "simtub_nc" || c == "simfft" || c == "kribayes" ||
-         c == "krigcell" || c == "simbayes";
+         c == "krigcell" || c == "simbayes" || c == "krimage";
 }
 // where results are written
 Db* targetOf(Invocation& iv)
 {
-  if (iv.c.calc == "xvalid" || iv.c.calc == "regression" || iv.c.calc == "morpho") return iv.dbin;
+  if (iv.c.calc == "xvalid" || iv.c.calc == "regression" || iv.c.calc == "morpho" || iv.c.calc == "smooth" || iv.c.calc == "krimage") return iv.dbin;
   return iv.dbout;
 }
 
@@ -365,6 +365,16 @@ int invoke(Invocation& iv, int& expectedNew)
     expectedNew = 1;
     return dbMorpho(g, *opers[c.optA % 6], 9., 11. + c.optB % 3, c.optC % 2, VectorInt(), false, false);
   }
+  if (k == "smooth" || k == "krimage")
+  {
+    // image calculators: the grid is input and output, the neighbourhood is an image window
+    DbGrid* g = dynamic_cast<DbGrid*>(dbin);
+    NeighImage* ni = NeighImage::create(VectorInt(W.spec.ndim, 1 + c.optA % 2), c.optB % 2);
+    expectedNew = 1;
+    int r = (k == "smooth") ? dbSmoother(g, ni, 1 + c.optC % 2, 1.5) : krimage(g, model, ni);
+    delete ni;
+    return r;
+  }
   if (k == "simbayes")
   {
     int nbsimu = 1 + c.optA % 2;
@@ -391,7 +401,7 @@ bool admissible(const std::string& k, const WorldSpec& w)
   if (k == "krigcell") return false; // needs block extension columns: not built by this generator
   if (k == "kribayes" || k == "simbayes") return w.nfex == 0 && w.nvar == 1;
   // grid-to-grid and image calculators: the input Db is rebuilt as a grid related to the target grid (see gridInputFor)
-  if (k == "g2gcopy" || k == "morpho") return w.outKind == 0 && w.nvar == 1 && w.nfex == 0 && w.selIn == 0;
+  if (k == "g2gcopy" || k == "morpho" || k == "smooth" || k == "krimage") return w.outKind == 0 && w.nvar == 1 && w.nfex == 0 && w.selIn == 0;
   if (k == "g2gexpand") return w.outKind == 0 && w.nvar == 1 && w.nfex == 0 && w.selIn == 0 && w.ndim >= 2;
   if (k == "g2gshrink") return w.outKind == 0 && w.nvar == 1 && w.nfex == 0 && w.selIn == 0 && w.ndim <= 2;
   if (k == "simtub_nc") return w.nfex == 0;
@@ -424,7 +434,7 @@ struct ExecOut
 // for 'morpho' input and output are that one grid.
 void gridInputFor(World& W, const std::string& calc)
 {
-  if (!(calc == "g2gcopy" || calc == "g2gexpand" || calc == "g2gshrink" || calc == "morpho")) return;
+  if (!(calc == "g2gcopy" || calc == "g2gexpand" || calc == "g2gshrink" || calc == "morpho" || calc == "smooth" || calc == "krimage")) return;
   DbGrid* out = dynamic_cast<DbGrid*>(W.dbout);
   if (out == nullptr) return;
   int nd = out->getNDim();
@@ -448,7 +458,7 @@ void gridInputFor(World& W, const std::string& calc)
   gin->addColumns(z, "za", ELoc::Z);
   if (W.dbin != W.dbout) delete W.dbin;
   W.dbin = gin;
-  if (calc == "morpho") { delete W.dbout; W.dbout = gin; }
+  if (calc == "morpho" || calc == "smooth" || calc == "krimage") { delete W.dbout; W.dbout = gin; }
 }
 
 void execCall(const Plan& p, Ctx& c, bool traceMode, const std::string& expectDigest)
@@ -802,8 +812,8 @@ struct CalcWorkload : Workload
       if (ill == 8 && !(k == "simtub" || k == "simtub_nc" || k == "simfft" || k == "simbayes")) continue;
       if (ill == 11 && !(k == "migrate" || k == "migrateMulti" || k == "regression")) continue;
       if ((ill == 1 || ill == 9 || ill == 12) && (k == "simtub_nc" || k == "simfft")) continue;
-      if (ill == 6 && (k == "xvalid" || k == "regression" || k == "morpho")) continue;
-      if (ill == 2 && (k == "xvalid" || k == "regression" || k == "morpho")) continue;
+      if (ill == 6 && (k == "xvalid" || k == "regression" || k == "morpho" || k == "smooth" || k == "krimage")) continue;
+      if (ill == 2 && (k == "xvalid" || k == "regression" || k == "morpho" || k == "smooth" || k == "krimage")) continue;
       runOne(derived(nullptr, ill));
     }
     return rr;
